@@ -123,7 +123,7 @@ impl Property for C10 {
     const ID: &'static str = "C10";
 
     fn rule() -> String {
-        "proptest-generated container specs (contents, 0..2 extra content packs in their own files, directory with 1-2 entry stores whose address columns point at the real contents) are created with BasicCreator in the three packagings; derived forms: tools::concat of the NoConcat files in every order (all permutations up to 4 files, 24 sampled of 120 for 5), concat of two concats, a OneFile container behind a prefix of 1..8192 bytes {random, text, ELF header, bytes starting with 'jbk'+kind char}, and a concat placed next to a corrupted copy of a pack at its recorded location (identity inside the file first). Oracle (metamorphic + model): every form opens, every entry of every index window and every content equal the model, check() is true. Non-trivial = at least one content and one entry and a form other than the creator's own output (all cases have such forms); distinct by (content count, entry count, extra packs, prefix class, compression). Excluded: a prefix that is itself a complete valid Jubako pack (the reader rightly finds that pack at offset 0; the property is about embedding at the end of a foreign file). Form prefix-external: the packs living in their own files (TwoFiles content, NoConcat content and directory, extra packs) are themselves embedded at the end of another file. Extra packs are placed next to the entry point, in a sub-directory, or in a sibling directory (recorded location starting with '..'). Form odd-file-name: one packaging per case is created again under a file name containing ':', ' ', '%', '#', '?', non-ASCII letters, a backslash, several dots, no extension, a leading dot or dash. Every form is opened a second time and its contents asked last pack first. Half of the prefixes end within 300 bytes below / 8 bytes above a multiple of 16 KiB (16..64 KiB). Form concat-file-then-bundle: a bundle (concat of all the files) given to concat after a file it already contains (and after it twice, and followed by another file).".into()
+        "proptest-generated container specs (contents, 0..2 extra content packs in their own files, directory with 1-2 entry stores whose address columns point at the real contents) are created with BasicCreator in the three packagings; derived forms: tools::concat of the NoConcat files in every order (all permutations up to 4 files, 24 sampled of 120 for 5), concat of two concats, a OneFile container behind a prefix of 1..8192 bytes {random, text, ELF header, bytes starting with 'jbk'+kind char}, and a concat placed next to a corrupted copy of a pack at its recorded location (identity inside the file first). Oracle (metamorphic + model): every form opens, every entry of every index window and every content equal the model, check() is true. Non-trivial = at least one content and one entry and a form other than the creator's own output (all cases have such forms); distinct by (content count, entry count, extra packs, prefix class, compression). Excluded: a prefix that is itself a complete valid Jubako pack (the reader rightly finds that pack at offset 0; the property is about embedding at the end of a foreign file). Form prefix-external: the packs living in their own files (TwoFiles content, NoConcat content and directory, extra packs) are themselves embedded at the end of another file. Extra packs are placed next to the entry point, in a sub-directory, or in a sibling directory (recorded location starting with '..'). Form odd-file-name: one packaging per case is created again under a file name containing ':', ' ', '%', '#', '?', non-ASCII letters, a backslash, several dots, no extension, a leading dot or dash. Every form is opened a second time and its contents asked last pack first. Half of the prefixes end within 300 bytes below / 8 bytes above a multiple of 16 KiB (16..64 KiB). Form concat-file-then-bundle: a bundle (concat of all the files) given to concat after a file it already contains (and after it twice, and followed by another file). Form symlinked-entry-point: the entry point is a symbolic link and the packs living in their own files sit beside the link.".into()
     }
 
     fn cases(tier: Tier) -> u32 {
@@ -356,6 +356,26 @@ impl Property for C10 {
             }
             evals += open_and_verify(&edir.join("a.jbk"), model, &format!("prefix-external-{name}"))?;
             info.class("form:prefix-external");
+        }
+        // 6b. a link farm: the entry point is a symbolic link, the packs living in their own files
+        // sit beside the LINK (the recorded locations are relative to where the container is opened)
+        for (bi, name) in [(1usize, "twofiles"), (2usize, "noconcat"), (0usize, "onefile")] {
+            if (case.seed as usize / 11) % 3 != bi {
+                continue;
+            }
+            let b = &builds[bi];
+            let store = ctx.subdir("c10-link-store");
+            let links = ctx.subdir("c10-link-farm");
+            std::fs::copy(b.dir.join("a.jbk"), store.join("a.jbk")).unwrap();
+            for f in &b.files {
+                if f != "a.jbk" {
+                    copy_rel(&b.dir, &links, f);
+                }
+            }
+            if std::os::unix::fs::symlink(store.join("a.jbk"), links.join("a.jbk")).is_ok() {
+                evals += open_and_verify(&links.join("a.jbk"), model, &format!("symlinked-entry-point-{name}"))?;
+                info.class("form:symlinked-entry-point");
+            }
         }
         // 7. the same container under a file name that is not plain ASCII letters: the recorded
         // locations of the packs living in their own files are derived from it (colon, space, '%',
